@@ -214,9 +214,11 @@ theorem tdiv_block (N n r : Int) (hN : 1 ≤ N) (hn : 0 ≤ n) (hr0 : 0 ≤ r) (
   rw [Int.ediv_eq_zero_of_lt hr0 hr]
   simp
 
-theorem tdiv_block_last (N n : Int) (hN : 1 ≤ N) (hn : 0 ≤ n) : (n * N + N).tdiv N = n + 1 := by
-  have : n * N + N = (n + 1) * N + 0 := by ring
+/-- sub-iteration `k = n·N + r`, `1 ≤ r ≤ N`, belongs to full iteration `n`: `(k - 1) / N = n` -/
+theorem tdiv_block_pred (N n r : Int) (hN : 1 ≤ N) (hn : 0 ≤ n) (hr1 : 1 ≤ r) (hr : r ≤ N) :
+    (n * N + r - 1).tdiv N = n := by
+  have : n * N + r - 1 = n * N + (r - 1) := by ring
   rw [this]
-  exact tdiv_block N (n + 1) 0 hN (by omega) (le_refl _) (by omega)
+  exact tdiv_block N n (r - 1) hN hn (by omega) (by omega)
 
 end StirVerif.C08
